@@ -6,8 +6,7 @@
   nearest peers it knows (never itself, never the requester).  For the XOR part peers are bit strings of one
   length `n` and "nearer" is the XOR order `closer t`.
 
-  `exact_K_full_knowledge` (result = the K globally nearest when everybody knows everybody) is still
-  open at theorem level; it is compared on generated full-knowledge networks by the correspondence.
+  `exact_K_full_knowledge`: result = the K globally nearest when everybody knows everybody.
 -/
 import KadDHT.Proofs.Lookup
 import KadDHT.Proofs.Xor
@@ -137,6 +136,23 @@ theorem nearest_first {n : Nat} (t : KeyN n) (K α β : Nat) (hK : 1 ≤ K) (hβ
   nearest_first_core (xorCfg t K α β self) rfl (xorCfg_order t K α β self) net hn
     (converging_of_bucketComplete t K α β hK self net hn hbc) hβ hK stop seeds hseeds evs hsched s0 s h0 h1 hterm hne
 
+/-- … and returns exactly the K globally nearest peers when every peer knows the whole network: the returned list is
+    in strictly ascending XOR distance from the key, holds only network peers, and every network peer that is not
+    returned is strictly farther from the key than each of the K returned ones (so when the network has fewer than K
+    peers all of them are returned). -/
+theorem exact_K_full_knowledge {n : Nat} (t : KeyN n) (K α β : Nat) (hK : 1 ≤ K) (hβ : 1 ≤ β) (self : KeyN n)
+    (net : Net (KeyN n)) (hn : NetOK (xorCfg t K α β self) net) (hfull : FullKnowledge net)
+    (stop : LState (KeyN n) → Bool) (seeds : List (KeyN n)) (hseeds : ∀ p ∈ seeds, p ∈ net.peers)
+    (evs : List (Ev (KeyN n))) (hsched : HonestSched (xorCfg t K α β self) net evs) (s0 s : LState (KeyN n))
+    (h0 : start (xorCfg t K α β self) stop seeds = .ok s0)
+    (h1 : runEvs (xorCfg t K α β self) (fun _ => true) stop s0 evs = .ok s)
+    (hterm : s.terminated = some .completed) (hne : (result (xorCfg t K α β self) s).peers ≠ []) :
+    let R := (result (xorCfg t K α β self) s).peers
+    R.Pairwise (fun a b => closer t.val a.val b.val = true) ∧ (∀ p ∈ R, p ∈ net.peers) ∧
+    ∀ g ∈ net.peers, g ∉ R → R.length = K ∧ ∀ p ∈ R, closer t.val p.val g.val = true :=
+  exact_K_core (xorCfg t K α β self) rfl (xorCfg_order t K α β self) net hn hfull hβ hK stop seeds hseeds evs hsched
+    s0 s h0 h1 hterm hne
+
 variable {P : Type} [DecidableEq P]
 
 /-- A lookup that ended by itself has received answers from the β nearest non-failed peers it learned
@@ -225,7 +241,18 @@ def exNet : Net (KeyN 3) :=
     knows := fun _ => [k3 false false true, k3 false true false, k3 true false false, k3 true true false, k3 false true true] }
 example : BucketComplete 2 exNet := by
   intro c _ j; left; intro m hm _ _; exact hm
+example : FullKnowledge exNet := ⟨fun _ _ m hm => hm, fun _ => by show List.Nodup [k3 false false true, k3 false true false, k3 true false false, k3 true true false, k3 false true true]; decide⟩
 example : closer [false, false, false] [false, false, true] [false, true, false] = true := by decide
 example : cpl [true, false, false] [false, true, true] = cpl [true, false, false] [false, false, true] := by decide
+
+/-- a concrete run meeting every hypothesis of `nearest_first` and `exact_K_full_knowledge`: K = α = 2, β = 1, seed 110;
+    the lookup completes after two honest answers and returns the two nearest peers 001, 010 -/
+def exCfg : Cfg (KeyN 3) := xorCfg (k3 false false false) 2 2 1 (k3 true true true)
+def exAns (p : KeyN 3) : Ev (KeyN 3) := .deliver p (.resp (honestAnswer exCfg exNet p))
+example : (match start exCfg (fun _ => false) [k3 true true false] with
+    | .ok s0 => match runEvs exCfg (fun _ => true) (fun _ => false) s0 [exAns (k3 true true false), exAns (k3 false false true)] with
+      | .ok s => some (s.terminated, (result exCfg s).peers.map Subtype.val)
+      | .error _ => none
+    | .error _ => none) = some (some .completed, [[false, false, true], [false, true, false]]) := by decide
 
 end KadDHT.C02
